@@ -3,7 +3,8 @@
 
 Source: `/repo/toolbox3d/rect_set.go`.  Core Lean only.
 
-* a `Rect` is its two corners as coordinate lists (length 3; entry `axis` read with `getD`);
+* a coordinate triple (`model3d.Coord3D`, and the per-axis array `[3]…`) is a `V3`; `get axis` /
+  `set axis` are `Array()[axis]` and `arr[axis] = v` (axes are 0, 1, 2);
 * the Go map `rects map[model3d.Rect]bool` is a duplicate-free list (iteration order is never
   observable: every loop over it is a commutative update or a filter);
 * `splits [3][]float64` are three ascending duplicate-free lists;
@@ -13,21 +14,38 @@ Source: `/repo/toolbox3d/rect_set.go`.  Core Lean only.
 -/
 namespace M3d.RectSet
 
+structure V3 (α : Type) where
+  x : α
+  y : α
+  z : α
+deriving DecidableEq
+
+def V3.get {α} (v : V3 α) : Nat → α
+  | 0 => v.x
+  | 1 => v.y
+  | _ => v.z
+
+def V3.set {α} (v : V3 α) (i : Nat) (a : α) : V3 α :=
+  match i with
+  | 0 => { v with x := a }
+  | 1 => { v with y := a }
+  | _ => { v with z := a }
+
 structure Rect (α : Type) where
-  lo : List α
-  hi : List α
+  lo : V3 α
+  hi : V3 α
 deriving DecidableEq
 
 section
 variable {α : Type} [LE α] [DecidableLE α] [LT α] [DecidableLT α] [DecidableEq α] [OfNat α 0]
 
 /-- `Rect.Contains`. -/
-def Rect.contains (r : Rect α) (p : List α) : Bool :=
-  (List.range 3).all fun i => decide (r.lo.getD i 0 ≤ p.getD i 0) && decide (p.getD i 0 ≤ r.hi.getD i 0)
+def Rect.contains (r : Rect α) (p : V3 α) : Bool :=
+  [0, 1, 2].all fun i => decide (r.lo.get i ≤ p.get i) && decide (p.get i ≤ r.hi.get i)
 
 /-- Package-level `splitRect(r, axis, value)`; `none` = `ok == false`. -/
 def splitRect (r : Rect α) (axis : Nat) (value : α) : Option (Rect α × Rect α) :=
-  if value ≤ r.lo.getD axis 0 ∨ r.hi.getD axis 0 ≤ value then none
+  if value ≤ r.lo.get axis ∨ r.hi.get axis ≤ value then none
   else some (⟨r.lo, r.hi.set axis value⟩, ⟨r.lo.set axis value, r.hi⟩)
 
 /-- Set insertion into the map-as-list. -/
@@ -36,49 +54,54 @@ def insertRect (rs : List (Rect α)) (r : Rect α) : List (Rect α) :=
 
 structure RS (α : Type) where
   rects : List (Rect α)
-  splits : List (List α)      -- three lists
+  splits : V3 (List α)
 
-def RS.empty : RS α := ⟨[], [[], [], []]⟩
+def RS.empty : RS α := ⟨[], ⟨[], [], []⟩⟩
 
 /-- `sort.SearchFloat64s` on an ascending list: least index whose entry is `≥ v`. -/
 def searchGE (xs : List α) (v : α) : Nat := (xs.takeWhile fun x => decide (x < v)).length
 
 def insertAt (xs : List α) (idx : Nat) (v : α) : List α := xs.take idx ++ v :: xs.drop idx
 
+/-- The loop of `addSplit` over the snapshot `rectSlice()`, editing the map. -/
+def splitAll (rects : List (Rect α)) (axis : Nat) (value : α) : List (Rect α) :=
+  rects.foldl (fun acc r =>
+    match splitRect r axis value with
+    | some (r1, r2) => insertRect (insertRect (acc.erase r) r1) r2
+    | none => acc) rects
+
 /-- `RectSet.addSplit`. -/
 def addSplit (s : RS α) (axis : Nat) (value : α) : RS α :=
-  let xs := s.splits.getD axis []
+  let xs := s.splits.get axis
   let idx := searchGE xs value
   if idx = xs.length then ⟨s.rects, s.splits.set axis (xs ++ [value])⟩
   else if xs.getD idx 0 = value then s
   else
     let splits := s.splits.set axis (insertAt xs idx value)
-    if idx > 0 then
-      -- loop over the snapshot `rectSlice()`, editing the map
-      let rects := s.rects.foldl (fun acc r =>
-        match splitRect r axis value with
-        | some (r1, r2) => insertRect (insertRect (acc.erase r) r1) r2
-        | none => acc) s.rects
-      ⟨rects, splits⟩
+    if idx > 0 then ⟨splitAll s.rects axis value, splits⟩
     else ⟨s.rects, splits⟩
 
 /-- `RectSet.addRectSplits`. -/
 def addRectSplits (s : RS α) (r : Rect α) : RS α :=
-  (List.range 3).foldl (fun s axis =>
-    addSplit (addSplit s axis (r.lo.getD axis 0)) axis (r.hi.getD axis 0)) s
+  [0, 1, 2].foldl (fun s axis =>
+    addSplit (addSplit s axis (r.lo.get axis)) axis (r.hi.get axis)) s
 
-/-- `RectSet.splitRectAxis`. -/
-def splitRectAxis (splits : List α) (r : Rect α) (axis : Nat) : List (Rect α) :=
-  let (res, last) := splits.foldl (fun (acc : List (Rect α) × Rect α) v =>
+/-- `RectSet.splitRectAxis`: state of the loop is (pieces so far, remaining rect). -/
+def splitRectAxisLoop (axis : Nat) : List (Rect α) × Rect α → List α → List (Rect α) × Rect α
+  | acc, [] => acc
+  | acc, v :: vs =>
     match splitRect acc.2 axis v with
-    | some (r1, r2) => (acc.1 ++ [r1], r2)
-    | none => acc) ([], r)
-  res ++ [last]
+    | some (r1, r2) => splitRectAxisLoop axis (acc.1 ++ [r1], r2) vs
+    | none => splitRectAxisLoop axis acc vs
+
+def splitRectAxis (splits : List α) (r : Rect α) (axis : Nat) : List (Rect α) :=
+  let res := splitRectAxisLoop axis ([], r) splits
+  res.1 ++ [res.2]
 
 /-- Method `RectSet.splitRect`. -/
-def splitRectAll (s : RS α) (r : Rect α) : List (Rect α) :=
-  (List.range 3).foldl (fun rects axis =>
-    rects.flatMap fun r => splitRectAxis (s.splits.getD axis []) r axis) [r]
+def splitRectAll (splits : V3 (List α)) (r : Rect α) : List (Rect α) :=
+  [0, 1, 2].foldl (fun rects axis =>
+    rects.flatMap fun r => splitRectAxis (splits.get axis) r axis) [r]
 
 /-- Ascending duplicate-free insertion (the effect of map-dedup + `sort.Float64s`). -/
 def insertSortedU (v : α) : List α → List α
@@ -86,50 +109,71 @@ def insertSortedU (v : α) : List α → List α
   | x :: xs => if v < x then v :: x :: xs else if v = x then x :: xs else x :: insertSortedU v xs
 
 /-- `RectSet.rebuildSplits`. -/
-def rebuildSplits (rects : List (Rect α)) : List (List α) :=
-  (List.range 3).map fun axis =>
-    rects.foldl (fun acc r => insertSortedU (r.hi.getD axis 0) (insertSortedU (r.lo.getD axis 0) acc)) []
+def rebuildAxis (rects : List (Rect α)) (axis : Nat) : List α :=
+  rects.foldl (fun acc r => insertSortedU (r.hi.get axis) (insertSortedU (r.lo.get axis) acc)) []
+
+def rebuildSplits (rects : List (Rect α)) : V3 (List α) :=
+  ⟨rebuildAxis rects 0, rebuildAxis rects 1, rebuildAxis rects 2⟩
 
 /-- `RectSet.Add`. -/
 def RS.add (s : RS α) (r : Rect α) : RS α :=
   let s := addRectSplits s r
-  ⟨(splitRectAll s r).foldl insertRect s.rects, s.splits⟩
+  ⟨(splitRectAll s.splits r).foldl insertRect s.rects, s.splits⟩
 
 /-- `RectSet.Remove`. -/
 def RS.remove (s : RS α) (r : Rect α) : RS α :=
   let s := addRectSplits s r
-  let rects := (splitRectAll s r).foldl (fun acc p => acc.erase p) s.rects
+  let rects := (splitRectAll s.splits r).foldl (fun acc p => acc.erase p) s.rects
+  ⟨rects, rebuildSplits rects⟩
+
+/-- The first loop of `AddRectSet` / `RemoveRectSet`: adopt every split of the other set. -/
+def addSplitsOf (s : RS α) (other : V3 (List α)) : RS α :=
+  [0, 1, 2].foldl (fun s axis => (other.get axis).foldl (fun s v => addSplit s axis v) s) s
+
+/-- `RectSet.AddRectSet`. -/
+def RS.addSet (s s1 : RS α) : RS α :=
+  let s := addSplitsOf s s1.splits
+  ⟨s1.rects.foldl (fun acc r => (splitRectAll s.splits r).foldl insertRect acc) s.rects, s.splits⟩
+
+/-- `RectSet.RemoveRectSet`. -/
+def RS.removeSet (s s1 : RS α) : RS α :=
+  let s := addSplitsOf s s1.splits
+  let rects := s1.rects.foldl (fun acc r => (splitRectAll s.splits r).foldl (fun a p => a.erase p) acc) s.rects
   ⟨rects, rebuildSplits rects⟩
 
 /-- `RectSet.Min()` / `Max()`. -/
-def RS.min (s : RS α) : List α :=
-  if s.rects.isEmpty then [0, 0, 0] else s.splits.map fun xs => xs.getD 0 0
-def RS.max (s : RS α) : List α :=
-  if s.rects.isEmpty then [0, 0, 0] else s.splits.map fun xs => xs.getD (xs.length - 1) 0
+def RS.min (s : RS α) : V3 α :=
+  if s.rects.isEmpty then ⟨0, 0, 0⟩
+  else ⟨s.splits.x.getD 0 0, s.splits.y.getD 0 0, s.splits.z.getD 0 0⟩
+def RS.max (s : RS α) : V3 α :=
+  if s.rects.isEmpty then ⟨0, 0, 0⟩
+  else ⟨s.splits.x.getD (s.splits.x.length - 1) 0, s.splits.y.getD (s.splits.y.length - 1) 0,
+        s.splits.z.getD (s.splits.z.length - 1) 0⟩
 
 /-! ## The solid -/
 
 inductive Tree (α : Type) where
   | empty : Tree α
   | single (r : Rect α) : Tree α
-  | node (axis : Nat) (cutoff : α) (below above : Tree α) (lo hi : List α) : Tree α
+  | many (rects : List (Rect α)) : Tree α
+  | node (axis : Nat) (cutoff : α) (below above : Tree α) (lo hi : V3 α) : Tree α
 
 /-- `splitRectSet`: the LAST axis with the most splits (`>=`), cutoff = its middle split. -/
-def splitAxis (splits : List (List α)) : Nat × Nat :=
-  (List.range 3).foldl (fun (acc : Nat × Nat) i =>
-    let l := (splits.getD i []).length
+def splitAxis (splits : V3 (List α)) : Nat × Nat :=
+  [0, 1, 2].foldl (fun (acc : Nat × Nat) i =>
+    let l := (splits.get i).length
     if l ≥ acc.2 then (i, l) else acc) (0, 0)
 
 def splitRectSet (s : RS α) : RS α × RS α × Nat × α :=
   let (axis, len) := splitAxis s.splits
-  let cutoff := (s.splits.getD axis []).getD (len / 2) 0
-  let r1 := s.rects.filter fun r => decide (r.lo.getD axis 0 < cutoff)
-  let r2 := s.rects.filter fun r => !decide (r.lo.getD axis 0 < cutoff)
+  let cutoff := (s.splits.get axis).getD (len / 2) 0
+  let r1 := s.rects.filter fun r => decide (r.lo.get axis < cutoff)
+  let r2 := s.rects.filter fun r => !decide (r.lo.get axis < cutoff)
   (⟨r1, rebuildSplits r1⟩, ⟨r2, rebuildSplits r2⟩, axis, cutoff)
 
-/-- `newRectSetSolid`.  The Go recursion has no counter; `fuel` makes it structural and
-`none` means "did not finish within `fuel` levels" (happens in Go, as unbounded recursion,
-for zero-thickness rects). -/
+/-- `newRectSetSolid`.  `fuel` only makes the recursion structural: both halves of a split that
+separates the rects are strictly smaller, and a split that does not separate them ends the recursion
+(`many`), so `fuel = number of rects` always suffices (`Lemmas/RectSetInv.lean`). -/
 def build : Nat → RS α → Option (Tree α)
   | 0, _ => none
   | fuel + 1, s =>
@@ -138,37 +182,76 @@ def build : Nat → RS α → Option (Tree α)
     | [r] => some (.single r)
     | _ =>
       let (s1, s2, axis, cutoff) := splitRectSet s
-      match build fuel s1, build fuel s2 with
-      | some b, some a => some (.node axis cutoff b a s.min s.max)
-      | _, _ => none
+      if s1.rects.isEmpty || s2.rects.isEmpty then some (.many s.rects)
+      else
+        match build fuel s1, build fuel s2 with
+        | some b, some a => some (.node axis cutoff b a s.min s.max)
+        | _, _ => none
 
 /-- `rectSetSolid.Contains`. -/
-def Tree.contains : Tree α → List α → Bool
+def Tree.contains : Tree α → V3 α → Bool
   | .empty, _ => false
   | .single r, p => r.contains p
+  | .many rs, p => rs.any fun r => r.contains p
   | .node axis cutoff below above lo hi, p =>
     if !((⟨lo, hi⟩ : Rect α).contains p) then false
-    else if p.getD axis 0 < cutoff then below.contains p
-    else if cutoff < p.getD axis 0 then above.contains p
+    else if p.get axis < cutoff then below.contains p
+    else if cutoff < p.get axis then above.contains p
     else (if below.contains p then true else above.contains p)
 
 /-- The rects at the leaves. -/
 def Tree.rects : Tree α → List (Rect α)
   | .empty => []
   | .single r => [r]
+  | .many rs => rs
   | .node _ _ b a _ _ => b.rects ++ a.rects
 
-/-- Executable form of the per-node facts the descent relies on (checked by the driver on every
-tree it builds; `Lemmas/RectSetTree.lean` proves it implies `Tree.WellSplit`). -/
+/-- Executable form of the per-node facts the descent relies on
+(`Lemmas/RectSetTree.lean` proves it implies `Tree.WellSplit`). -/
 def Tree.wellSplitB : Tree α → Bool
   | .empty => true
   | .single _ => true
+  | .many _ => true
   | .node axis cutoff b a lo hi =>
     b.wellSplitB && a.wellSplitB && decide (axis < 3) &&
-    b.rects.all (fun r => decide (r.hi.getD axis 0 ≤ cutoff)) &&
-    a.rects.all (fun r => decide (cutoff ≤ r.lo.getD axis 0)) &&
-    (b.rects ++ a.rects).all (fun r => (List.range 3).all fun i =>
-      decide (lo.getD i 0 ≤ r.lo.getD i 0) && decide (r.hi.getD i 0 ≤ hi.getD i 0))
+    b.rects.all (fun r => decide (r.hi.get axis ≤ cutoff)) &&
+    a.rects.all (fun r => decide (cutoff ≤ r.lo.get axis)) &&
+    (b.rects ++ a.rects).all (fun r => [0, 1, 2].all fun i =>
+      decide (lo.get i ≤ r.lo.get i) && decide (r.hi.get i ≤ hi.get i))
+
+/-! ## Histories and what they mean as point sets -/
+
+/-- A way to arrive at a `RectSet` value: `NewRectSet()`, `Add`, `Remove`, `AddRectSet`, `RemoveRectSet`. -/
+inductive Hist (α : Type) where
+  | new : Hist α
+  | add (h : Hist α) (r : Rect α) : Hist α
+  | remove (h : Hist α) (r : Rect α) : Hist α
+  | addSet (h h1 : Hist α) : Hist α
+  | removeSet (h h1 : Hist α) : Hist α
+
+/-- The `RectSet` value a history produces. -/
+def Hist.eval : Hist α → RS α
+  | .new => RS.empty
+  | .add h r => h.eval.add r
+  | .remove h r => h.eval.remove r
+  | .addSet h h1 => h.eval.addSet h1.eval
+  | .removeSet h h1 => h.eval.removeSet h1.eval
+
+/-- The point set a history denotes: boxes added, minus boxes removed, in order. -/
+def Hist.sem : Hist α → V3 α → Bool
+  | .new, _ => false
+  | .add h r, p => h.sem p || r.contains p
+  | .remove h r, p => h.sem p && !(r.contains p)
+  | .addSet h h1, p => h.sem p || h1.sem p
+  | .removeSet h h1, p => h.sem p && !(h1.sem p)
+
+/-- Every box of the history. -/
+def Hist.boxes : Hist α → List (Rect α)
+  | .new => []
+  | .add h r => r :: h.boxes
+  | .remove h r => r :: h.boxes
+  | .addSet h h1 => h.boxes ++ h1.boxes
+  | .removeSet h h1 => h.boxes ++ h1.boxes
 
 end
 end M3d.RectSet
